@@ -615,6 +615,7 @@ static void finish_case(void)
 static void case_grid(uint64_t idx)
 {
 	char d1[40], d2[40];
+	int sample = (idx % 9973) == 5;   /* a few grid points among the evidence samples */
 	transitions = 0; crosscopies = 0;
 	vf_fp_u64(0x16000 + idx);
 	if (idx < g_set()) {
@@ -625,7 +626,7 @@ static void case_grid(uint64_t idx)
 		apply_content(h, cp, 1, p & 1);
 		apply_content(h, cn, 2, n & 1);
 		content_desc(d1, sizeof(d1), cp); content_desc(d2, sizeof(d2), cn);
-		vf_sample("grid set-after-set: storage %s(%zu) capacity %u: %s then %s", kindname[h->kind], STOR[s].param, h->max, d1, d2);
+		if (sample) vf_sample("grid set-after-set: storage %s(%zu) capacity %u: %s then %s", kindname[h->kind], STOR[s].param, h->max, d1, d2);
 		if (transitions) vf_nontrivial();
 		finish_case();
 		return;
@@ -643,9 +644,8 @@ static void case_grid(uint64_t idx)
 		op_copy(d, s);
 		if (transitions) vf_nontrivial();
 		content_desc(d1, sizeof(d1), cd); content_desc(d2, sizeof(d2), cs);
-		vf_sample("grid copy: target %s(%zu) cap %u holding %s <- source %s(%zu) cap %u holding %s", kindname[d->kind], STOR[sd].param, d->max, d1,
+		if (sample) vf_sample("grid copy: target %s(%zu) cap %u holding %s <- source %s(%zu) cap %u holding %s", kindname[d->kind], STOR[sd].param, d->max, d1,
 		          kindname[s->kind], STOR[ss].param, s->max, d2);
-		/* and back: the (former) source receives the copy's content after it was changed */
 		finish_case();
 		return;
 	}
@@ -667,7 +667,7 @@ static void case_grid(uint64_t idx)
 		}
 		if (transitions || (op >= 2 && explen(h) > h->max)) vf_nontrivial();
 		content_desc(d1, sizeof(d1), cp);
-		vf_sample("grid %s: storage %s(%zu) capacity %u holding %s", op == 0 ? "clear" : op == 1 ? "copy from NULL" : op == 2 ? "self-copy" : "copy-construct (traits / node_clone)",
+		if (sample || (op == 3 && p == 7)) vf_sample("grid %s: storage %s(%zu) capacity %u holding %s", op == 0 ? "clear" : op == 1 ? "copy from NULL" : op == 2 ? "self-copy" : "copy-construct (traits / node_clone)",
 		          kindname[h->kind], STOR[s].param, h->max, d1);
 		finish_case();
 	}
